@@ -783,4 +783,397 @@ theorem quiescent_clean (store : Nat → Nat) (reqs : List (List Item)) (hd : Di
       | X => have := ki.excl hm; have := hz .X; omega
   · rw [ki.rc_eq, hz]; rfl
 
+/-! ## no deadlock: every step makes progress, every program terminates -/
+
+/-- upper bound on the number of steps a thread still takes -/
+def mu (th : Thread) : Nat :=
+  match th.pc with
+  | .locking => 2 * th.todo.length + th.succ.length + 5
+  | .checked _ => th.succ.length + 4
+  | .applied => th.succ.length + 3
+  | .published => th.succ.length + 2
+  | .unlocking => th.succ.length + 1
+  | .done => 0
+
+theorem getElem?_set_self_of_some {l : List Thread} {t : Nat} {th a : Thread} (h : l[t]? = some th) :
+    (l.set t a)[t]? = some a := by
+  have hlt : t < l.length := by
+    rcases List.getElem?_eq_some_iff.mp h with ⟨hlt, _⟩
+    exact hlt
+  rw [List.getElem?_set]
+  simp [hlt]
+
+theorem getElem?_set_other {l : List Thread} {t u : Nat} {a : Thread} (h : u ≠ t) :
+    (l.set t a)[u]? = l[u]? := by
+  rw [List.getElem?_set]
+  have : ¬ t = u := fun hh => h hh.symm
+  simp [this]
+
+theorem beginUnlock_other (s : Sys) (t u : Nat) (th : Thread) (h : u ≠ t) :
+    (beginUnlock s t th).threads[u]? = s.threads[u]? := by
+  unfold beginUnlock
+  split <;> simp [Sys.setThread, getElem?_set_other h]
+
+/-- a step of thread `t` does not touch any other thread's state -/
+theorem step_other (s : Sys) (t u : Nat) (h : u ≠ t) : (step s t).threads[u]? = s.threads[u]? := by
+  unfold step
+  split
+  · rfl
+  · split
+    · split
+      · split <;> simp [Sys.setThread, getElem?_set_other h]
+      · split <;> simp [Sys.setThread, getElem?_set_other h]
+    · simp [getElem?_set_other h]
+    · exact beginUnlock_other s t u _ h
+    · simp [Sys.setThread, getElem?_set_other h]
+    · exact beginUnlock_other s t u _ h
+    · exact beginUnlock_other s t u _ h
+    · rfl
+
+theorem beginUnlock_progress {s : Sys} {t : Nat} {th : Thread} (h : s.threads[t]? = some th)
+    (hpc : th.pc = .checked false ∨ th.pc = .published ∨ th.pc = .unlocking) :
+    ∃ th', (beginUnlock s t th).threads[t]? = some th' ∧ mu th' < mu th := by
+  unfold beginUnlock
+  split
+  · refine ⟨_, getElem?_set_self_of_some h, ?_⟩
+    rcases hpc with hpc | hpc | hpc <;> simp [mu, hpc]
+  · rename_i it rest hs
+    refine ⟨_, getElem?_set_self_of_some h, ?_⟩
+    rcases hpc with hpc | hpc | hpc <;> simp [mu, hpc, hs] <;> omega
+
+/-- **step_progress** (TryLock never blocks) — a scheduled thread that has not finished always moves, and
+its remaining-steps bound strictly decreases: no step of the protocol waits for another thread. -/
+theorem step_progress {s : Sys} {t : Nat} {th : Thread} (h : s.threads[t]? = some th) (hnd : th.pc ≠ .done) :
+    ∃ th', (step s t).threads[t]? = some th' ∧ mu th' < mu th := by
+  unfold step
+  simp only [h]
+  split
+  · rename_i hpc
+    split
+    · rename_i it rest ht
+      split
+      · exact ⟨_, getElem?_set_self_of_some h, by simp [mu, hpc, ht]; omega⟩
+      · refine ⟨_, getElem?_set_self_of_some h, ?_⟩
+        by_cases hs : th.succ.isEmpty = true <;> simp [mu, hpc, hs] <;> omega
+    · rename_i ht
+      split
+      · exact ⟨_, getElem?_set_self_of_some h, by simp [mu, hpc, ht]⟩
+      · exact ⟨_, getElem?_set_self_of_some h, by simp [mu, hpc, ht]⟩
+  · rename_i hpc
+    exact ⟨_, getElem?_set_self_of_some h, by simp [mu, hpc]⟩
+  · rename_i hpc
+    exact beginUnlock_progress h (Or.inl hpc)
+  · rename_i hpc
+    exact ⟨_, getElem?_set_self_of_some h, by simp [mu, hpc]⟩
+  · rename_i hpc
+    exact beginUnlock_progress h (Or.inr (Or.inl hpc))
+  · rename_i hpc
+    exact beginUnlock_progress h (Or.inr (Or.inr hpc))
+  · rename_i hpc
+    exact absurd hpc hnd
+
+theorem step_done {s : Sys} {t : Nat} {th : Thread} (h : s.threads[t]? = some th) (hd : th.pc = .done) :
+    step s t = s := by
+  unfold step
+  simp only [h]
+  split <;> simp_all
+
+theorem done_stable {s : Sys} {t : Nat} {th : Thread} (h : s.threads[t]? = some th) (hd : th.pc = .done)
+    (sched : List Nat) : (run s sched).threads[t]? = some th := by
+  induction sched generalizing s with
+  | nil => exact h
+  | cons u ts ih =>
+    apply ih
+    by_cases hu : u = t
+    · subst hu; rw [step_done h hd]; exact h
+    · rw [step_other s u t (fun hh => hu hh.symm)]; exact h
+
+theorem mu_zero {th : Thread} (h : mu th = 0) : th.pc = .done := by
+  unfold mu at h
+  split at h <;> first | omega | assumption
+
+/-- **no_deadlock** — under ANY schedule, from ANY state, a thread that is scheduled at least `mu` times
+(at most `2·|keys| + 5`) has finished: it never waits for anybody, whatever the others do in between. -/
+theorem no_deadlock (s : Sys) (sched : List Nat) (t : Nat) (th : Thread) (h : s.threads[t]? = some th)
+    (hcount : mu th ≤ sched.count t) : ∃ th', (run s sched).threads[t]? = some th' ∧ th'.pc = .done := by
+  induction sched generalizing s th with
+  | nil =>
+    simp at hcount
+    exact ⟨th, h, mu_zero hcount⟩
+  | cons u ts ih =>
+    by_cases hd : th.pc = .done
+    · exact ⟨th, done_stable h hd _, hd⟩
+    · by_cases hu : u = t
+      · subst hu
+        obtain ⟨th', h', hlt⟩ := step_progress h hd
+        simp only [List.count_cons_self] at hcount
+        exact ih (step s u) th' h' (by omega)
+      · have hc : (u :: ts).count t = ts.count t := by
+          simp [hu]
+        rw [hc] at hcount
+        exact ih (step s u) th (by rw [step_other s u t (fun hh => hu hh.symm)]; exact h) hcount
+
+/-- **no_deadlock_all** — every request terminates: if the schedule gives each of the `n` submitted
+requests `2·|keys| + 5` turns (in any order, interleaved in any way), all of them have finished, and by
+`quiescent_clean` the lock table is then empty. -/
+theorem no_deadlock_all (store : Nat → Nat) (reqs : List (List Item)) (sched : List Nat)
+    (hfair : ∀ (t : Nat) (r : List Item), reqs[t]? = some r → 2 * r.length + 5 ≤ sched.count t) :
+    ∀ th ∈ (run (init store reqs) sched).threads, th.pc = .done := by
+  intro th hth
+  obtain ⟨t, ht⟩ := List.mem_iff_getElem?.mp hth
+  have hlen : ∀ (s : Sys) (u : Nat), (step s u).threads.length = s.threads.length := by
+    intro s u
+    unfold step
+    split
+    · rfl
+    · split
+      · split
+        · split <;> simp [Sys.setThread]
+        · split <;> simp [Sys.setThread]
+      · simp
+      · unfold beginUnlock; split <;> simp [Sys.setThread]
+      · simp [Sys.setThread]
+      · unfold beginUnlock; split <;> simp [Sys.setThread]
+      · unfold beginUnlock; split <;> simp [Sys.setThread]
+      · rfl
+  have hlenrun : ∀ (sc : List Nat) (s : Sys), (run s sc).threads.length = s.threads.length := by
+    intro sc
+    induction sc with
+    | nil => intro s; rfl
+    | cons u ts ih => intro s; rw [run_cons, ih, hlen]
+  have htlt : t < reqs.length := by
+    have h1 : t < (run (init store reqs) sched).threads.length := by
+      rcases List.getElem?_eq_some_iff.mp ht with ⟨hlt, _⟩
+      exact hlt
+    rw [hlenrun] at h1
+    simpa [init] using h1
+  have h0 : (init store reqs).threads[t]? = some (newThread reqs[t]) := by
+    simp [init, htlt]
+  obtain ⟨th', h', hd'⟩ := no_deadlock (init store reqs) sched t (newThread reqs[t]) h0
+    (by
+      have := hfair t reqs[t] (by simp [htlt])
+      simpa [mu, newThread] using this)
+  rw [ht] at h'
+  cases h'
+  exact hd'
+
+/-! ## serialisability: the concurrent run equals a one-at-a-time run in log order -/
+
+/-- one request executed alone and atomically against `st`: cs.check, and cs.apply if it passed; `none` if
+the verdict differs from the logged one -/
+def seqStep (reqs : List (List Item)) (st : Nat → Nat) (e : Nat × Bool) : Option (Nat → Nat) :=
+  match reqs[e.1]? with
+  | none => none
+  | some items => if check st items = e.2 then some (if e.2 then applyW st e.1 items else st) else none
+
+/-- the requests of `log` executed one at a time, in that order -/
+def replay (reqs : List (List Item)) : (Nat → Nat) → List (Nat × Bool) → Option (Nat → Nat)
+  | st, [] => some st
+  | st, e :: es =>
+    match seqStep reqs st e with
+    | none => none
+    | some st' => replay reqs st' es
+
+theorem replay_snoc (reqs : List (List Item)) (st st' : Nat → Nat) (l : List (Nat × Bool)) (e : Nat × Bool)
+    (h : replay reqs st l = some st') : replay reqs st (l ++ [e]) = seqStep reqs st' e := by
+  induction l generalizing st with
+  | nil =>
+    simp [replay] at h
+    subst h
+    simp only [List.nil_append, replay]
+    cases seqStep reqs st e <;> rfl
+  | cons a l ih =>
+    simp only [List.cons_append, replay] at h ⊢
+    cases hs : seqStep reqs st a with
+    | none => simp [hs] at h
+    | some st1 =>
+      simp only [hs] at h ⊢
+      exact ih st1 h
+
+theorem map_items_set {l : List Thread} {t : Nat} {th th' : Thread} (h : l[t]? = some th)
+    (hi : th'.items = th.items) : (l.set t th').map (·.items) = l.map (·.items) := by
+  induction l generalizing t with
+  | nil => rfl
+  | cons b l ih =>
+    cases t with
+    | zero =>
+      simp at h
+      subst h
+      simp [hi]
+    | succ t =>
+      simp at h
+      simp [ih h]
+
+theorem beginUnlock_effect {s : Sys} {t : Nat} {th : Thread} (h : s.threads[t]? = some th) :
+    (beginUnlock s t th).threads.map (·.items) = s.threads.map (·.items) ∧
+    (beginUnlock s t th).log = s.log ∧ (beginUnlock s t th).store = s.store := by
+  unfold beginUnlock
+  split
+  · exact ⟨map_items_set h rfl, rfl, rfl⟩
+  · exact ⟨map_items_set h rfl, rfl, rfl⟩
+
+/-- what a step does to the requests, the log and the store -/
+theorem step_effect {s : Sys} {t : Nat} {th : Thread} (h : s.threads[t]? = some th) :
+    (step s t).threads.map (·.items) = s.threads.map (·.items) ∧
+    (((step s t).log = s.log ∧ (step s t).store = s.store) ∨
+     ((step s t).log = s.log ++ [(t, false)] ∧ (step s t).store = s.store ∧ check s.store th.items = false) ∨
+     ((step s t).log = s.log ++ [(t, true)] ∧ (step s t).store = applyW s.store t th.items ∧ th.pc = .checked true)) := by
+  unfold step
+  simp only [h]
+  split
+  · split
+    · split
+      · exact ⟨map_items_set h rfl, Or.inl ⟨rfl, rfl⟩⟩
+      · exact ⟨map_items_set h rfl, Or.inl ⟨rfl, rfl⟩⟩
+    · split
+      · exact ⟨map_items_set h rfl, Or.inl ⟨rfl, rfl⟩⟩
+      · rename_i hck
+        exact ⟨map_items_set h rfl, Or.inr (Or.inl ⟨rfl, rfl, by simpa using hck⟩)⟩
+  · rename_i hpc
+    exact ⟨map_items_set h rfl, Or.inr (Or.inr ⟨rfl, rfl, hpc⟩)⟩
+  · have := beginUnlock_effect h
+    exact ⟨this.1, Or.inl this.2⟩
+  · exact ⟨map_items_set h rfl, Or.inl ⟨rfl, rfl⟩⟩
+  · have := beginUnlock_effect h
+    exact ⟨this.1, Or.inl this.2⟩
+  · have := beginUnlock_effect h
+    exact ⟨this.1, Or.inl this.2⟩
+  · exact ⟨rfl, Or.inl ⟨rfl, rfl⟩⟩
+
+/-- the log replays to the current store -/
+def Ser (store0 : Nat → Nat) (s : Sys) : Prop :=
+  replay (s.threads.map (·.items)) store0 s.log = some s.store
+
+theorem ser_step {store0 : Nat → Nat} {s : Sys} (hinv : Inv s) (hser : Ser store0 s) (t : Nat) :
+    Ser store0 (step s t) := by
+  cases h : s.threads[t]? with
+  | none =>
+    have : step s t = s := by
+      unfold step
+      simp [h]
+    rw [this]; exact hser
+  | some th =>
+    obtain ⟨hmap, heff⟩ := step_effect h
+    unfold Ser at *
+    rw [hmap]
+    have hreq : (s.threads.map (·.items))[t]? = some th.items := by
+      rw [List.getElem?_map, h]; rfl
+    rcases heff with ⟨hl, hst⟩ | ⟨hl, hst, hck⟩ | ⟨hl, hst, hpc⟩
+    · rw [hl, hst]; exact hser
+    · rw [hl, hst, replay_snoc _ _ _ _ _ hser]
+      simp [seqStep, hreq, hck]
+    · have hck := hinv.fresh th (List.mem_of_getElem? h) hpc
+      rw [hl, hst, replay_snoc _ _ _ _ _ hser]
+      simp [seqStep, hreq, hck]
+
+theorem ser_run {store0 : Nat → Nat} {s : Sys} (hinv : Inv s) (hser : Ser store0 s) (sched : List Nat) :
+    Ser store0 (run s sched) := by
+  induction sched generalizing s with
+  | nil => exact hser
+  | cons t ts ih => exact ih (inv_step hinv t) (ser_step hinv hser t)
+
+theorem init_items (store : Nat → Nat) (reqs : List (List Item)) :
+    (init store reqs).threads.map (·.items) = reqs := by
+  simp [init, List.map_map, Function.comp_def, newThread]
+
+theorem run_items (s : Sys) (sched : List Nat) : (run s sched).threads.map (·.items) = s.threads.map (·.items) := by
+  induction sched generalizing s with
+  | nil => rfl
+  | cons t ts ih =>
+    rw [run_cons, ih]
+    cases h : s.threads[t]? with
+    | none =>
+      have : step s t = s := by
+        unfold step
+        simp [h]
+      rw [this]
+    | some th => exact (step_effect h).1
+
+/-- **serialisable** — for EVERY schedule: executing the logged requests ONE AT A TIME, in log order
+(`cs.apply` order; a request whose `cs.check` failed at the place of its check), from the initial store,
+gives every one of them the same verdict as in the concurrent run and ends in exactly the concurrent
+run's store.  In particular every admitted request found all its keys at the versions it was built
+against at the moment it was applied (no lost update, conflicting requests are never both admitted). -/
+theorem serialisable (store : Nat → Nat) (reqs : List (List Item)) (hd : DistinctKeys reqs) (sched : List Nat) :
+    replay reqs store (run (init store reqs) sched).log = some (run (init store reqs) sched).store := by
+  have h0 : Ser store (init store reqs) := by
+    unfold Ser
+    simp [init, replay]
+  have := ser_run (inv_init store reqs hd) h0 sched
+  unfold Ser at this
+  rw [run_items, init_items] at this
+  exact this
+
+/-! ## the code before the repair violates the statement -/
+
+def Split.view (s : Split.Sys) : List (List Item × Bool) := s.threads.map (fun th => (th.items, th.inside))
+
+/-- `mutex_inv` stated for the step system of the UNPATCHED spin_lock.go (LoadOrStore / Add and
+Release / Delete as separate steps). -/
+def mutex_inv_prefix_statement : Prop :=
+  ∀ (store : Nat → Nat) (reqs : List (List Item)), DistinctKeys reqs → ∀ sched : List Nat,
+    MutexHolds (Split.run (Split.init store reqs) sched).m (Split.view (Split.run (Split.init store reqs) sched))
+
+/-- four requests on key 1: shared, shared, exclusive, exclusive -/
+def cexReqs : List (List Item) := [[⟨1, .S, 0⟩], [⟨1, .S, 0⟩], [⟨1, .X, 0⟩], [⟨1, .X, 0⟩]]
+
+/-- T0 takes S(1) and enters; T1's LoadOrStore sees the S entry; T0 leaves: Release → 0, Delete;
+T1 Adds (count 1, no entry) and enters; T2 takes X(1) on the free key and enters; T1 leaves:
+Release → 0, Delete removes T2's entry; T3 takes X(1) and enters while T2 is still inside. -/
+def cexSched : List Nat := [0, 0, 0, 1, 0, 0, 0, 0, 1, 1, 2, 2, 1, 1, 1, 1, 3, 3]
+
+theorem cexReqs_distinct : DistinctKeys cexReqs := by
+  intro r hr
+  simp [cexReqs] at hr
+  rcases hr with rfl | rfl <;> simp
+
+/-- **mutex_inv_prefix_counterexample** — on the faithful model of the unpatched code, the schedule
+`cexSched` puts two EXCLUSIVE holders of key 1 (threads 2 and 3) inside their critical sections at once.
+The same schedule was replayed through the yield hooks on the real unpatched `utxo.SpinLock`
+(corpus/C12/prefix-two-exclusive.ops) and is what commit `fix: SpinLock takes and releases each key
+atomically` repairs. -/
+theorem mutex_inv_prefix_counterexample : ¬ mutex_inv_prefix_statement := by
+  intro h
+  have hm := (h (fun _ => 0) cexReqs cexReqs_distinct cexSched).1 2 3 [⟨1, .X, 0⟩] [⟨1, .X, 0⟩] ⟨1, .X, 0⟩ ⟨1, .X, 0⟩
+    (by decide) (by decide) (by decide) (by simp) (by simp) rfl
+  exact absurd hm.1 (by decide)
+
+/-- already three threads break it: a SHARED holder (thread 1) and an EXCLUSIVE holder (thread 2) of key 1
+are inside together, and thread 1's key has no entry in the table. -/
+theorem mutex_inv_prefix_counterexample3 :
+    ¬ MutexHolds (Split.run (Split.init (fun _ => 0) [[⟨1, .S, 0⟩], [⟨1, .S, 0⟩], [⟨1, .X, 0⟩]]) [0, 0, 0, 1, 0, 0, 0, 0, 1, 1, 2, 2]).m
+        (Split.view (Split.run (Split.init (fun _ => 0) [[⟨1, .S, 0⟩], [⟨1, .S, 0⟩], [⟨1, .X, 0⟩]]) [0, 0, 0, 1, 0, 0, 0, 0, 1, 1, 2, 2])) := by
+  intro h
+  have hm := h.1 1 2 [⟨1, .S, 0⟩] [⟨1, .X, 0⟩] ⟨1, .S, 0⟩ ⟨1, .X, 0⟩
+    (by decide) (by decide) (by decide) (by simp) (by simp) rfl
+  exact absurd hm.2 (by decide)
+
+/-! ## non-vacuity -/
+
+/-- the hypotheses of `mutex_inv` are met by a non-trivial reachable state: two readers of key 1 are inside
+their critical sections at the same time (reference count 2) while a writer's TryLock has failed -/
+example :
+    let s := run (init (fun _ => 0) [[⟨1, .S, 0⟩], [⟨1, .S, 0⟩, ⟨2, .X, 0⟩], [⟨1, .X, 0⟩]]) [0, 1, 1, 0, 1, 2]
+    view s = [([⟨1, .S, 0⟩], true), ([⟨1, .S, 0⟩, ⟨2, .X, 0⟩], true), ([⟨1, .X, 0⟩], false)] ∧
+    s.m 1 = some .S ∧ s.rc 1 = 2 ∧ s.m 2 = some .X ∧ s.threads.map (·.res) = [.running, .running, .lockFail] := by
+  decide
+
+/-- a complete run: the writer of key 1 and a request built against its write are both admitted in that
+order, a request built against the old version is rejected as stale; everybody finishes, the table is
+empty, the log is the serial order -/
+example :
+    let s := run (init (fun _ => 0) [[⟨1, .X, 0⟩], [⟨1, .S, 1⟩, ⟨2, .X, 0⟩], [⟨1, .X, 0⟩]])
+      [0, 0, 0, 0, 0, 0, 1, 1, 1, 1, 1, 1, 1, 1, 2, 2, 2, 2]
+    s.threads.map (·.pc) = [.done, .done, .done] ∧ s.threads.map (·.res) = [.admitted, .admitted, .stale] ∧
+    s.log = [(0, true), (1, true), (2, false)] ∧ s.m 1 = none ∧ s.m 2 = none ∧ s.store 1 = 1 ∧ s.store 2 = 2 := by
+  decide
+
+/-- all-or-fail: thread 0 takes S(1), fails on key 2 (held exclusively by thread 1), releases key 1 again
+and finishes without ever waiting; thread 1 is untouched -/
+example :
+    let s := run (init (fun _ => 0) [[⟨1, .S, 0⟩, ⟨2, .X, 0⟩], [⟨2, .X, 0⟩]]) [1, 0, 0, 0, 0]
+    s.threads.map (·.res) = [.lockFail, .running] ∧ s.threads.map (·.pc) = [.done, .locking] ∧
+    s.m 1 = none ∧ s.rc 1 = 0 ∧ s.m 2 = some .X := by
+  decide
+
 end XV.C12
